@@ -42,7 +42,10 @@ VARIABLES pool, steps,      \* the history so far
 vars == <<pool, steps, memo, execs>>
 
 OnceConvs == {c \in DOMAIN pool : pool[c].once}
-Init == /\ pool \in Pools /\ steps = <<>>
+\* targeted histories of length three, part of every enumeration: the same call before and after a Redefine of that target
+Sandwiches == { <<c, r, c>> : c \in {x \in Steps : x.op = "call"}, r \in {x \in Steps : x.op = "redefine"} }
+SandwichesOK == { h \in Sandwiches : h[1].target = h[2].target }
+Init == /\ pool \in Pools /\ steps \in {<<>>} \cup SandwichesOK
         /\ memo = [c \in 1..3 |-> "none"] /\ execs = [c \in 1..3 |-> 0]
 
 \* a real call may need any subset of the converters; a needed run-once converter executes only if it
@@ -69,7 +72,7 @@ HasRedefine == \E i \in DOMAIN steps : steps[i].op = "redefine"
 Hist(tw) == [hid |-> 0, targets |-> Targets, inputs |-> Inputs, convs |-> pool, family |-> "life", twinOf |-> tw,
              steps |-> IF tw = 0 THEN steps
                        ELSE [i \in DOMAIN steps |-> IF steps[i].op = "redefine" THEN [steps[i] EXCEPT !.op = "skip"] ELSE steps[i]]]
-EmitHist == (Len(steps) = MaxLen) =>
+EmitHist == (Len(steps) >= MaxLen) =>
               /\ PrintT(<<"HIST", ToJson(Hist(0))>>)
               /\ (HasRedefine => PrintT(<<"HIST", ToJson(Hist(1))>>))
 =============================================================================
